@@ -35,7 +35,7 @@ theorem skipNl_word (w : String) (tl : List Tok) : skipNl (.word w :: tl) = .wor
 
 theorem iterHead_no_colon {v : IterVar} {vts : List Tok} (h : IterHead v vts) : Tok.colon ∉ vts := by
   cases h with
-  | single n => simp
+  | single n _ => simp
   | tuple n ns =>
     have : ∀ ns : List String, Tok.colon ∉ (ns.flatMap fun m => [Tok.comma, Tok.word m]) := by
       intro ns; induction ns with
@@ -65,7 +65,7 @@ theorem tk_no_colon {t : PExp} {ts : List Tok} {items : List Item} : Tk t ts ite
       | cons s ss ih => cases ss <;> simp_all [intArrToks]
     simp [this ss]
   | .cvar hi => by simp [idx_no_colon hi]
-  | .access _ hi => by simp [acc_no_colon hi]
+  | .access _ _ hi => by simp [acc_no_colon hi]
   | .block _ _ _ _ ha => by simp [args_no_colon ha]
   | .scoped _ _ _ _ hi hb => by simp [iters_no_colon hi, tk_no_colon hb]
 theorem varTail_no_colon {vs : List PExp} {vts : List Tok} : VarTail vs vts → Tok.colon ∉ vts
@@ -148,7 +148,7 @@ theorem tk_head_cvar {t : PExp} {ts : List Tok} {items : List Item} : Tk t ts it
     injection h1 with h1
     subst h1
     exact ⟨e, es, its, [], hi, by simp, Or.inl rfl⟩
-  | .access _ hi, w, r, h => by
+  | .access _ _ hi, w, r, h => by
     obtain ⟨r0, rfl⟩ := acc_head hi
     simp at h
   | .block _ _ _ _ _, w, r, h => by simp at h
@@ -964,9 +964,14 @@ theorem scopedKind_facts {k : String} (h : Gen.scopedKinds.any (fun e => e.2 == 
 theorem plainVar_notKeyword {n : String} (h : plainVar n = true) : isKeyword n = false := by
   simp only [plainVar, Bool.and_eq_true, Bool.not_eq_true'] at h; exact h.2
 
+theorem plainRun_ne_us {n : String} (h : isPlainRun n.toList = true) : n ≠ "_" := by
+  intro e; subst e; exact absurd h (by decide)
+
 theorem wfvar_of_printable {v : IterVar} (h : printableIterVar v = true) : WFx.WFvar v := by
   cases v with
-  | single n => trivial
+  | single n =>
+    simp only [printableIterVar, plainVar, Bool.and_eq_true] at h
+    exact plainRun_ne_us h.1
   | tuple ns =>
     simp only [printableIterVar, Bool.and_eq_true, Bool.not_eq_true'] at h
     intro e; subst e; simp at h
@@ -993,7 +998,7 @@ theorem coreExp_wf : (e : PExp) → coreExp e = true → WFx e
   | .access n idx, h => by
     simp only [coreExp, Bool.and_eq_true, Bool.not_eq_true', bne_iff_ne, ne_eq] at h
     simp only [WFx]
-    exact ⟨h.1.1.2, by intro e; subst e; simp at h, coreList_wf idx h.2⟩
+    exact ⟨h.1.1.2, plainRun_ne_us h.1.1.1, by intro e; subst e; simp at h, coreList_wf idx h.2⟩
   | .call n args, h => by
     simp only [coreExp, Bool.and_eq_true, Bool.not_eq_true', bne_iff_ne, ne_eq] at h
     simp only [WFx]
